@@ -285,6 +285,9 @@ def httpH : Handler := fun inp impl => do
   -- host keys outside the glob fragment the model states (classes, alternatives, escapes): not judged here (C03)
   if !C13Table.keysInFragment tbl || !C03.inFragment (C13Table.chars host) then
     return ({ model := Json.null, agree := true, spec := true, nontrivial := false, tag := "host-pattern-outside-fragment" } : Verdict).toJson
+  -- the hypotheses of `model_meets_table_spec` about the real table: lower-case distinct keys, longest path first
+  if !C13Table.wellFormedB tbl then
+    return ({ model := Json.null, agree := false, spec := true, nontrivial := false, tag := "dump-not-wellformed" } : Verdict).toJson
   match (if targetOK target then C13Table.mkReq host target xfp tls else none) with
   | none =>
     return ({ model := Json.mkObj [("status", 400)], agree := status == 400, spec := hits == 0, nontrivial := false, tag := "bad-request" } : Verdict).toJson
